@@ -79,7 +79,7 @@ class AMix(A):
         self.mixed = frozenset(mixed)
 
     def __repr__(self):
-        return f"A(one of {sorted(self.mixed)} depending on the path)"
+        return f"A(spaces {sorted(self.mixed)}: different on different paths, or rows / columns of different sets)"
 
 
 class IMix(I):
@@ -204,6 +204,13 @@ class MaskTyper01(MaskTyper):
                     else:
                         out.append(self.ty(node.elt))
                 return DictT(out) if isinstance(node, ast.DictComp) else Tup(out)
+        if isinstance(node, ast.Subscript) and isinstance(node.slice, (ast.Call, ast.Name)):
+            # a square array cut by np.ix_(I, J) with selectors of two different (known) sub-spaces lives in neither: rows in one, columns in the other
+            t = self.ty(node.slice)
+            if isinstance(t, tuple) and len(t) == 3 and t[0] == "ix" and all(isinstance(x, I) and x.cod is not None for x in t[1:]) and t[1].cod != t[2].cod \
+                    and isinstance(self.ty(node.value), A):
+                super().ty(node)          # the index-space checks of the base class (resolved operations, reports)
+                return AMix(None, {t[1].cod, t[2].cod})
         if isinstance(node, ast.Subscript):
             b = self.ty(node.value)
             if isinstance(b, NZ2):
